@@ -151,8 +151,9 @@ def main(chk):
                 model_only.append(r)
     chk.cov["input_distribution"] = fam
     chk.cov["rule"] = ("condition pool of %d values (every built-in type's zero and non-zero value, children made with bear of values and "
-                       "of the type objects, typed descendants made with new, objects whose B prints and returns true / false / a non-boolean / "
-                       "raises) x 15 conditional constructs (if/else, if, !, !!, && and || on either side, guarded return/raise/defer/yield, B "
+                       "of the type objects, typed descendants made with new (also Int / Str / Arr descendants whose prototype overrides B), objects whose B prints and returns true / false / a non-boolean / "
+                       "raises) x 22 conditional constructs (if/else, if, !, !!, && and || on either side incl. a side-effecting left operand that decides, the "
+                       "compound forms ||= and &&=, the operators written directly as call arguments, guarded return/raise/defer/yield, B "
                        "called directly, guard inside a list chain, nested conditionals) with marker-printing operands, plus seeded random "
                        "compositions. Expected trace and value from the property's rule; all cases non-trivial, distinct by text. Children of "
                        "BaseObj itself are outside the property's domain and not generated." % len(POOL))
